@@ -165,15 +165,18 @@ def leaves(doc):
     return out
 
 
-_ADV_CHARS = set('"\\][}{,:')
-_ADV_WORDS = ("sort", "errors", "hits", "took", "after_key")
+_ADV_CHARS = set('"\\][}{')
 
 
 def is_adversarial(s):
-    """the NT rule's notion of an adversarial string"""
+    """
+    the NT rule's notion of an adversarial string: contains a quote, backslash, bracket, brace, control character or non-ASCII
+    character (all need escaping or can derail a textual scan), or contains the word `sort` / `errors` without being exactly a member
+    name Elasticsearch writes itself.  (',' and ':' are in the generation alphabet but occur in every timestamp, so they do not count.)
+    """
     if any(c in _ADV_CHARS or ord(c) < 0x20 or ord(c) > 0x7E for c in s):
         return True
-    return any(w in s for w in _ADV_WORDS)
+    return ("sort" in s or "errors" in s) and s not in ("sort", "errors")
 
 
 def strings_of(o):
@@ -198,7 +201,7 @@ ADV = [
     "é", "ß", "日本語", "\u2028", "\xa0", "Ж", "😀", "𝄞",
     '\\"', "\\]", "],[", '"]', "]}", "\\u005d", "\\\\", "null", "true", "1e5", " ",
 ]  # fmt: skip
-RESERVED_KEYS = ["sort", "hits", "took", "after_key", "errors", "total", "timed_out", "_scroll_id", "pit_id", "items", "value", "relation",
+RESERVED_KEYS = ["value", "hits", "took", "after_key", "errors", "total", "sort", "timed_out", "_scroll_id", "pit_id", "items", "relation",
                  "aggregations", "status", "_shards", "error"]  # fmt: skip
 PLAIN_KEYS = ["f", "name", "ts", "user.id", "geo", "msg", "@timestamp", "n"]
 INDEX_NAMES = ["logs", "logs-[2021.01]", "sort", "idx-é", "a.b-000001", "{x}"]
@@ -278,13 +281,14 @@ def _highlight_dict(adv):
 
 @functools.lru_cache(maxsize=None)
 def sort_values(adv):
-    v = st.one_of(text(adv), text(adv), st.sampled_from(INTS), st.sampled_from(FLOATS), st.integers(0, 50), st.none())
+    v = st.one_of(text(adv), text(adv), text(adv), text(adv), st.sampled_from(INTS), st.sampled_from(FLOATS), st.integers(0, 50), st.none())
     return st.lists(v, min_size=1, max_size=3)
 
 
 @functools.lru_cache(maxsize=None)
 def after_key_value(adv):
-    return st.one_of(text(adv), text(adv), st.sampled_from(INTS), st.sampled_from(FLOATS), st.booleans(), st.none(), st.integers(0, 9))
+    t, i, f, b, n = text(adv), st.sampled_from(INTS), st.sampled_from(FLOATS), st.booleans(), st.integers(0, 9)
+    return st.one_of(t, t, t, t, i, i, i, f, f, f, b, b, b, n, n, st.none())  # null (missing bucket) 1 in 16
 
 
 @functools.lru_cache(maxsize=None)
@@ -372,7 +376,7 @@ def hit(draw, adv, with_sort, rich):
         if after in (2, 3):
             h["_explanation"] = {"value": 1.5, "description": draw(text(adv)), "details": []}
         if after in (4, 5, 6, 7):
-            h["inner_hits"] = inner_hits(draw, adv, with_sort and after < 6)
+            h["inner_hits"] = inner_hits(draw, adv, with_sort and after == 7)
     return h
 
 
@@ -472,7 +476,7 @@ def search_response(
     if aggs:
         r["aggregations"] = aggs
     if _one_in(draw, 15):
-        r["suggest"] = {draw(agg_name(adv)): [{"text": draw(text(adv)), "offset": 0, "length": 4, "options": []}]}
+        r["suggest"] = {draw(_sf("my-suggest", "my-suggest", "sort")): [{"text": draw(text(adv)), "offset": 0, "length": 4, "options": []}]}
     r = _shuffled(draw, r, shuffle)
     return ser(r, ascii_=ascii_)
 
@@ -480,7 +484,7 @@ def search_response(
 # ------------------------------------------------------------------------------------------------ cases
 def _render_opts(draw):
     o = draw(_i(0, 999))
-    adv = o % 10 < 8
+    adv = o % 10 < 8  # 80 % adversarial alphabet
     shuffle = (o // 10) % 10 < 3
     ascii_ = (o // 100) % 10 < 3
     return adv, shuffle, ascii_
@@ -490,6 +494,8 @@ _OK_SHARDS = ({"total": 2, "successful": 1, "failed": 0}, {"total": 2, "successf
 _OUTCOMES = {
     "ok": ("created", "created", "updated", "deleted", "noop", "s299"),
     "soft": ("created", "updated", "shard_failed", "del404"),
+    "softfail": ("shard_failed", "shard_failed", "del404", "created"),
+    "fail": ("fail",),
     "mixed": ("created", "updated", "deleted", "noop", "s299", "shard_failed", "del404", "fail", "fail", "fail", "fail", "fail"),
 }
 _ERR_TYPES = ("mapper_parsing_exception", "version_conflict_engine_exception", "es_rejected_execution_exception", "document_missing_exception")
@@ -505,7 +511,7 @@ def _bulk_template(draw, adv, shuffle, outcomes):
     if oc == "fail":
         op = draw(_sf("index", "index", "create", "update", "delete"))
         t["status"] = draw(_sf(400, 400, 404, 409, 429, 429, 500, 503, 300))
-        form = draw(_sf("object", "object", "object", "object", "caused_by", "null_reason", "string"))
+        form = draw(_sf("object", "object", "object", "caused_by", "null_reason", "string", "string"))
         if form == "string":
             t["error"] = "RemoteTransportException[" + draw(T) + "]"
         else:
@@ -546,15 +552,20 @@ def _bulk_template(draw, adv, shuffle, outcomes):
 
 @functools.lru_cache(maxsize=None)
 def _bulk_runs(n_templates, max_rep):
-    return st.lists(st.tuples(st.integers(0, n_templates - 1), st.sampled_from([1, 1, 1, 1, 2, 3, 7, 40, max_rep])), min_size=0, max_size=7)
+    return st.lists(st.tuples(st.integers(0, n_templates - 1), st.sampled_from([1, 1, 1, 2, 3, 7, 40, max_rep, max_rep])), min_size=0, max_size=7)
 
 
 @st.composite
 def bulk_case(draw, tier):
     adv, shuffle, ascii_ = _render_opts(draw)
-    mode = draw(_sf("ok", "ok", "ok", "mixed", "mixed", "mixed", "mixed", "mixed", "mixed", "soft"))
+    mode = draw(_sf("ok", "ok", "ok", "mixed", "mixed", "mixed", "mixed", "mixed", "softfail", "softfail", "soft"))
     templates = [_bulk_template(draw, adv, shuffle, _OUTCOMES[mode]) for _ in range(draw(_i(1, 5)))]
     runs = draw(_bulk_runs(len(templates), 120 if tier == "quick" else 300))
+    if mode == "softfail":
+        # items Elasticsearch does not flag (failed replica, delete of a missing document) next to one it does: errors is true, so the
+        # fast path has to count the unflagged ones by its own rule
+        templates.append(_bulk_template(draw, adv, shuffle, _OUTCOMES["fail"]))
+        runs = [(0, 1)] + runs + [(len(templates) - 1, 1)]
     items = []
     for ti, rep in runs:
         op, t = templates[ti]
@@ -566,19 +577,19 @@ def bulk_case(draw, tier):
             items.append({op: it})
     errors = any("error" in next(iter(i.values())) for i in items)  # BulkResponse#hasFailures: an item failed iff it carries a failure
     took = draw(_sf(0, 3, 30, 2147483647))
-    layout = draw(_sf("shuffled", "shuffled", "es8", "es7")) if shuffle else draw(_sf("es8", "es7"))
+    # `shuffle` governs the members of items, errors and _shards; the top level has its own layout: the two orders Elasticsearch
+    # writes (8.x: errors,took,items; 7.x: took,errors,items), items first (the parser has to walk all items), or any permutation
+    layout = draw(_sf("es8", "es8", "es7", "items-first", "items-first", "shuffled"))
     ingest = _one_in(draw, 4)
-    if layout == "es7":
-        r = {"took": took}
-        if ingest:
-            r["ingest_took"] = draw(_i(0, 99))
-        r["errors"] = errors
-        r["items"] = items
+    head = {"took": took, "errors": errors} if layout == "es7" or (layout == "items-first" and draw(_B)) else {"errors": errors, "took": took}
+    if ingest:
+        head["ingest_took"] = draw(_i(0, 99))
+        if layout == "es7":
+            head = {"took": took, "ingest_took": head["ingest_took"], "errors": errors}
+    if layout == "items-first":
+        r = {"items": items, **head}
     else:
-        r = {"errors": errors, "took": took}
-        if ingest:
-            r["ingest_took"] = draw(_i(0, 99))
-        r["items"] = items
+        r = {**head, "items": items}
         r = _shuffled(draw, r, layout == "shuffled")
     unit = draw(_sf("docs", "docs", "docs", "ops", "MB"))
     return {
@@ -660,7 +671,7 @@ def paginated_case(draw, tier):
 def composite_case(draw, tier):
     adv, shuffle, ascii_ = _render_opts(draw)
     path = draw(_names(adv, 1, 3, True))
-    sources = draw(_names(adv, 1, 3, False))
+    sources = draw(_names(adv, 2, 4, False))
     n_pages = draw(_sf(1, 2, 2, 3))
     limit = draw(_sf("all", "all", "limit"))
     pit = draw(_B)
@@ -748,17 +759,5 @@ def parse_case(draw, tier):
 
 @functools.lru_cache(maxsize=None)
 def cases(tier):
-    return st.one_of(
-        bulk_case(tier),
-        bulk_case(tier),
-        search_case(tier),
-        scroll_case(tier),
-        scroll_case(tier),
-        paginated_case(tier),
-        paginated_case(tier),
-        paginated_case(tier),
-        composite_case(tier),
-        composite_case(tier),
-        parse_case(tier),
-        parse_case(tier),
-    )
+    weights = [(bulk_case, 4), (search_case, 1), (scroll_case, 2), (paginated_case, 5), (composite_case, 5), (parse_case, 3)]
+    return st.one_of(*[f(tier) for f, w in weights for _ in range(w)])
